@@ -203,5 +203,50 @@ theorem toDag_keeps_directed (p : PD) (res : List (Var × Var)) (h : p.toDag = s
   unfold toDag at h
   exact go_keeps_acc _ _ _ _ _ res h
 
+/-- every edge the loop emits is a directed edge it started with or an orientation of an undirected edge -/
+theorem go_only_orients (D0 U0 : List (Var × Var)) : ∀ (fuel : Nat) (R : List Var) (dir und acc res : List (Var × Var)),
+    (∀ e ∈ und, e ∈ U0) → (∀ e ∈ acc, e ∈ D0 ∨ e ∈ U0 ∨ (e.2, e.1) ∈ U0) →
+    toDag.go fuel R dir und acc = some res → ∀ e ∈ res, e ∈ D0 ∨ e ∈ U0 ∨ (e.2, e.1) ∈ U0
+  | 0, R, dir, und, acc, res, _, hacc, hgo => by
+    unfold toDag.go at hgo
+    split at hgo
+    · cases hgo; exact hacc
+    · cases hgo
+  | f+1, R, dir, und, acc, res, hund, hacc, hgo => by
+    unfold toDag.go at hgo
+    split at hgo
+    · cases hgo; exact hacc
+    · simp only at hgo
+      split at hgo
+      · cases hgo
+      · next x _ =>
+        refine go_only_orients D0 U0 f _ _ _ _ res (fun e he => hund e (List.mem_filter.mp he).1) ?_ hgo
+        intro e' he'
+        rcases List.mem_append.mp he' with h | h
+        · exact hacc e' h
+        · obtain ⟨e, he, rfl⟩ := List.mem_map.mp h
+          obtain ⟨he1, he2⟩ := List.mem_filter.mp he
+          have heU := hund e he1
+          obtain ⟨e1, e2⟩ := e
+          by_cases hx : (e1 == x) = true
+          · have : e1 = x := by simpa using hx
+            subst this
+            right; right
+            simpa using heU
+          · have h2 : e2 = x := by
+              have hx' : e1 ≠ x := by simpa using hx
+              simpa [hx'] using he2
+            subst h2
+            right; left
+            simpa [hx] using heU
+
+/-- **`PDAG.to_dag` invents no adjacency**: every edge of the result is a directed edge of the PDAG or an
+    orientation of one of its undirected edges -/
+theorem toDag_only_orients (p : PD) (res : List (Var × Var)) (h : p.toDag = some res) :
+    ∀ e ∈ res, e ∈ p.directed ∨ e ∈ p.undirected.map normPair ∨ (e.2, e.1) ∈ p.undirected.map normPair := by
+  unfold toDag at h
+  exact go_only_orients p.directed (p.undirected.map normPair) _ _ _ _ _ res (fun e he => he)
+    (fun e he => Or.inl he) h
+
 end PD
 end PgmVerif
